@@ -19,6 +19,26 @@ class Unsupported(Exception):
     pass
 
 
+ONE = "1%N"
+FUNC_OPS = {"jnp.add": (ast.Add(), 2), "jnp.subtract": (ast.Sub(), 2), "jnp.multiply": (ast.Mult(), 2), "jnp.negative": (ast.USub(), 1),
+            "jnp.matmul": (ast.MatMult(), 2)}
+
+
+def bcast(da, db):
+    """numpy broadcasting of two per-component shapes of equal rank (an axis of extent one stretches)"""
+    if len(da) != len(db):
+        return None
+    out = []
+    for x, y in zip(da, db):
+        if x == y or y == ONE:
+            out.append(x)
+        elif x == ONE:
+            out.append(y)
+        else:
+            return None
+    return tuple(out)
+
+
 def ann_dims(node):
     """Float[Array, "#R K D"] -> ('K', 'D') (component axis dropped)"""
     if node is None:
@@ -76,15 +96,34 @@ class Tr:
             return env[node.id]
         if isinstance(node, ast.Attribute) and isinstance(node.value, ast.Name) and node.value.id == "self" and node.attr in SELF:
             return node.attr.replace("Sigma", "S"), tuple(self.dim_term(d, dimenv) for d in SELF[node.attr])
+        # jnp.add / subtract / multiply / negative / matmul are the operators
+        if isinstance(node, ast.Call) and ast.unparse(node.func) in FUNC_OPS and not node.keywords:
+            op, n = FUNC_OPS[ast.unparse(node.func)]
+            if len(node.args) != n:
+                raise Unsupported("arity of " + ast.unparse(node.func))
+            node = ast.UnaryOp(op=op, operand=node.args[0]) if n == 1 else ast.BinOp(left=node.args[0], op=op, right=node.args[1])
+        if isinstance(node, ast.BinOp) and isinstance(node.op, ast.MatMult):
+            # per component: [R, m, n] @ [R, n, k] (a rank-1 operand would be read by numpy as a matrix over the component axis)
+            (a, da), (b, db) = self.expr(node.left, env, dimenv), self.expr(node.right, env, dimenv)
+            if len(da) != 2 or len(db) != 2 or da[1] != db[0] or ONE in (da + db):
+                raise Unsupported("matmul of shapes %s %s" % (da, db))
+            return "(fun o0 o1 => sumn %s (fun t => %s * %s))" % (da[1], app(a, ["o0", "t"]), app(b, ["t", "o1"])), (da[0], db[1])
         if isinstance(node, ast.BinOp) and isinstance(node.op, (ast.Add, ast.Sub)):
             (a, da), (b, db) = self.expr(node.left, env, dimenv), self.expr(node.right, env, dimenv)
-            if da != db or da == ("bs",):
+            dd = bcast(da, db)
+            if dd is None or da == ("bs",) or db == ("bs",):
                 raise Unsupported("+/- of different shapes %s %s" % (da, db))
             op = "+" if isinstance(node.op, ast.Add) else "-"
-            ix = idx_names(len(da), set())
-            return lam(ix, "%s %s %s" % (app(a, ix), op, app(b, ix))), da
+            ix = idx_names(len(dd), set())
+            return lam(ix, "%s %s %s" % (app(a, ix), op, app(b, ix))), dd
         if isinstance(node, ast.BinOp) and isinstance(node.op, ast.Mult):
             (a, da), (b, db) = self.expr(node.left, env, dimenv), self.expr(node.right, env, dimenv)
+            if da != ("bs",) and db != ("bs",) and len(da) == len(db) and len(da) > 0:
+                dd = bcast(da, db)
+                if dd is None:
+                    raise Unsupported("* of shapes %s %s" % (da, db))
+                ix = idx_names(len(dd), set())
+                return lam(ix, "%s * %s" % (app(a, ix), app(b, ix))), dd
             if da == ("bs",) and db != ("bs",):
                 ix = idx_names(len(db), set())
                 return lam(ix, "(%s) * %s" % (a, app(b, ix))), db
@@ -109,11 +148,19 @@ class Tr:
         if isinstance(node, ast.Subscript):
             a, da = self.expr(node.value, env, dimenv)
             sl = node.slice.elts if isinstance(node.slice, ast.Tuple) else [node.slice]
-            ok = (len(sl) >= 2 and isinstance(sl[0], ast.Slice) and sl[0].lower is None and sl[0].upper is None and sl[0].step is None
-                  and all(isinstance(s, ast.Constant) and s.value is None for s in sl[1:]))
-            if not ok or da != ():
-                raise Unsupported("subscript other than scalar[:, None, ...]: " + ast.unparse(node))
-            return a, ("bs",)
+            full = lambda s_: isinstance(s_, ast.Slice) and s_.lower is None and s_.upper is None and s_.step is None
+            none = lambda s_: isinstance(s_, ast.Constant) and s_.value is None
+            if not (len(sl) >= 2 and full(sl[0]) and all(full(s_) or none(s_) for s_ in sl[1:])) or da == ("bs",):
+                raise Unsupported("subscript other than [:, (: | None), ...]: " + ast.unparse(node))
+            if da == () and all(none(s_) for s_ in sl[1:]):
+                return a, ("bs",)
+            # x[:, :, None] etc.: a new axis of extent one, which broadcasts (as a function it ignores that index)
+            if sum(1 for s_ in sl[1:] if full(s_)) != len(da):
+                raise Unsupported("subscript does not address every axis: " + ast.unparse(node))
+            ix = idx_names(len(sl) - 1, set())
+            keep = [i for i, s_ in zip(ix, sl[1:]) if full(s_)]
+            it = iter(da)
+            return lam(ix, app(a, keep)), tuple(next(it) if full(s_) else ONE for s_ in sl[1:])
         if isinstance(node, ast.Call):
             f = node.func
             fn = ast.unparse(f)
@@ -288,6 +335,27 @@ def translate(repo):
                 v = "v_" + st.targets[0].id
                 lets.append("let %s := %s in" % (v, c))
                 env[st.targets[0].id] = (v, dc)
+            elif (isinstance(st, ast.Assign) and len(st.targets) == 1 and isinstance(st.targets[0], (ast.Tuple, ast.List))
+                  and all(isinstance(t, ast.Name) for t in st.targets[0].elts)
+                  and isinstance(st.value, (ast.ListComp, ast.Tuple, ast.List))):
+                # several names at once: a tuple / list of expressions, or a comprehension over a literal tuple of expressions
+                v_ = st.value
+                if isinstance(v_, ast.ListComp):
+                    g_ = v_.generators
+                    if len(g_) != 1 or g_[0].ifs or g_[0].is_async or not isinstance(g_[0].target, ast.Name) or not isinstance(g_[0].iter, (ast.Tuple, ast.List)):
+                        raise Unsupported("comprehension in %s: %s" % (m, ast.unparse(st)[:60]))
+                    vals = []
+                    for it_ in g_[0].iter.elts:
+                        env2 = dict(env); env2[g_[0].target.id] = tr.expr(it_, env, dimenv)
+                        vals.append(tr.expr(v_.elt, env2, dimenv))
+                else:
+                    vals = [tr.expr(e_, env, dimenv) for e_ in v_.elts]
+                if len(vals) != len(st.targets[0].elts):
+                    raise Unsupported("unpacking arity in %s" % m)
+                for t_, (c, dc) in zip(st.targets[0].elts, vals):
+                    v = "v_" + t_.id
+                    lets.append("let %s := %s in" % (v, c))
+                    env[t_.id] = (v, dc)
             elif isinstance(st, ast.Return) and st is body[-1]:
                 result = tr.expr(st.value, env, dimenv)
             else:
